@@ -622,6 +622,28 @@ where
                         compiler_result,
                     ));
                 }
+                // An output that is a device or a FIFO (`-o /dev/null`) cannot be read
+                // back: what would be stored under this key is not what the compiler
+                // produced, and the key does not depend on the output path.
+                #[cfg(unix)]
+                {
+                    use std::os::unix::fs::FileTypeExt;
+                    let special = outputs.iter().any(|o| {
+                        std::fs::metadata(&o.path)
+                            .map(|m| {
+                                let t = m.file_type();
+                                t.is_char_device() || t.is_block_device() || t.is_fifo() || t.is_socket()
+                            })
+                            .unwrap_or(false)
+                    });
+                    if special {
+                        debug!("[{}]: output is not a regular file, not storing", out_pretty);
+                        return Ok((
+                            CompileResult::NotCacheable(dist_type, duration_compilation),
+                            compiler_result,
+                        ));
+                    }
+                }
                 debug!(
                     "[{}]: Compiled in {}, storing in cache",
                     out_pretty,
